@@ -809,6 +809,12 @@ class Sim(object):
     def sock_send(self, st, data):
         data = bytes(data)
         f = self.fault("send")
+        if not f and data[:1] == b"\x88" and not getattr(st, "close_write_faulted", False):
+            # fault table key "send_close": the write that carries the client's Close frame fails (once)
+            table = (self.attempt() or {}).get("faults") or {}
+            if table.get("send_close"):
+                st.close_write_faulted = True
+                f = table["send_close"]
         if st.closed:
             self.log_op("send_on_closed", st, data)
             raise OSError(errno.EBADF, "Bad file descriptor")
